@@ -394,8 +394,16 @@ func c27Case(t *testing.T, rec *kit.Rec, ci int) {
 		}
 	case 4:
 		o.Includes = pats
+		if rng.Bool() {
+			// both kinds of include patterns in one run (seeded change C27-2): entries matched by
+			// either kind must be kept
+			o.IIncludes = g.patterns(allPaths)[:1]
+		}
 	default:
 		o.IIncludes = pats
+		if rng.Bool() {
+			o.Includes = g.patterns(allPaths)[:1]
+		}
 	}
 	rp.Opts = o
 	before, _, err := e.vdSnapshots()
